@@ -7,6 +7,8 @@
         -> <r,r,…>   RemoteAddr() of the connection accepted for each a-event (new session, first
                      stream) and t-event (a further stream of the k-th session): n | x<hex>
      clientid bb0 …                       same for the pinned (v0) acceptStreams
+     clientid bbe <cap> <ev,ev,…>         as bb, plus  e<k> : the k-th carrier of the scenario (0-based, in order of
+                                          its c-event) ends (Model/ServerCarrier.v run_conns_h)
      clientid burst <cap> <ev,ev,…>       ev as for bb, or a burst  b<m>+<item>+<item>…  with
                                           item = <id16hex>.<streams>.<rank>: the sessions of the items are
                                           accepted back to back (m = how the driver delivers their first
@@ -78,6 +80,12 @@ Definition ev_parse (t : bytes) : option event :=
   | 97 :: r => option_map Accept (id_parse r)
   | 116 :: r => option_map Stream (dec_parse_nat r)
   | _ => None
+  end.
+
+Definition hev_parse (t : bytes) : option hevent :=
+  match t with
+  | 101 :: r => option_map HEnd (dec_parse_nat r)        (* e<k> *)
+  | _ => option_map HEv (ev_parse t)
   end.
 
 Definition bitem_parse (t : bytes) : option bitem :=
@@ -205,6 +213,11 @@ Definition run (args : list bytes) : bytes :=
       else if beq o (bs "bb") then
         match dec_parse_nat a, list_parse ev_parse b with
         | Some cap, Some evs => list_print (map (fun c => addr_print (snd c)) (run_conns cap evs))
+        | _, _ => ERR_BADCASE
+        end
+      else if beq o (bs "bbe") then
+        match dec_parse_nat a, list_parse hev_parse b with
+        | Some cap, Some hevs => list_print (map (fun c => addr_print (snd c)) (run_conns_h cap hevs))
         | _, _ => ERR_BADCASE
         end
       else if beq o (bs "bb0") then
